@@ -40,7 +40,8 @@ type item struct {
 	Signed bool     `json:"signed"`
 	As     string   `json:"as"`     // optional Coq name
 	Field  string   `json:"field"`  // table of struct literals: the field to take
-	Params []string `json:"params"` // rangebound: receiver fields that become parameters
+	Params []string `json:"params"` // rangebound: receiver fields that become parameters; assign: local names
+	Var    string   `json:"var"`    // assign: the variable whose defining expression is translated
 }
 
 type spec struct {
@@ -803,6 +804,47 @@ func (p *pkgInfo) rangeBound(it item) string {
 	return fmt.Sprintf("Definition %s%s%s : Z := %s.\n", name, sep, strings.Join(params, " "), c.expr(bound))
 }
 
+// assignExpr translates the right-hand side of the first `<var> := <expr>`
+// statement of a function: a Gallina function of the local identifiers listed
+// in it.Params (any other free identifier must be a constant).
+func (p *pkgInfo) assignExpr(it item) string {
+	key := it.Name
+	if it.Recv != "" {
+		key = it.Recv + "." + it.Name
+	}
+	fd, ok := p.funcs[key]
+	if !ok {
+		panic(terr{"unknown function " + key})
+	}
+	c := &fctx{p: p, width: it.Width, signed: it.Signed, locals: map[string]bool{}}
+	var params []string
+	for _, f := range it.Params {
+		c.locals[f] = true
+		params = append(params, "(v_"+f+" : Z)")
+	}
+	var rhs ast.Expr
+	ast.Inspect(fd.Body, func(n ast.Node) bool {
+		if as, ok := n.(*ast.AssignStmt); ok && rhs == nil && as.Tok == token.DEFINE && len(as.Lhs) == 1 && len(as.Rhs) == 1 {
+			if id, ok := as.Lhs[0].(*ast.Ident); ok && id.Name == it.Var {
+				rhs = as.Rhs[0]
+			}
+		}
+		return rhs == nil
+	})
+	if rhs == nil {
+		fail(p.fset.Position(fd.Pos()), "function %s has no `%s := <expr>` statement", key, it.Var)
+	}
+	name := it.As
+	if name == "" {
+		name = it.Name + "_" + it.Var
+	}
+	sep := ""
+	if len(params) > 0 {
+		sep = " "
+	}
+	return fmt.Sprintf("Definition %s%s%s : Z := %s.\n", name, sep, strings.Join(params, " "), c.expr(rhs))
+}
+
 // ---- driver ----
 
 func generate(sp spec) (out string, err error) {
@@ -876,6 +918,8 @@ func generate(sp spec) (out string, err error) {
 			b.WriteString(p.function(it))
 		case "rangebound":
 			b.WriteString(p.rangeBound(it))
+		case "assign":
+			b.WriteString(p.assignExpr(it))
 		default:
 			panic(terr{"unknown item kind " + it.Kind})
 		}
